@@ -51,6 +51,10 @@ pub enum FaultKind {
     LoadEmptyResults,
     /// (loads) results holding one warning, `<load-error-count>1`, and no `<ok/>`
     LoadWarningNoOk,
+    /// two rpc-errors, the first of severity error, the second a warning
+    ErrorThenWarning,
+    /// two rpc-errors, the first a warning, the second of severity error
+    WarningThenError,
     /// (loads) a results element generated from the reply grammar that is **not** a positive
     /// acknowledgement (it holds an error-severity rpc-error, or no `<ok/>` at all); see
     /// [`load_shape`]. Elsewhere like `RpcError`
@@ -107,7 +111,7 @@ pub fn load_shape(code: u16) -> Vec<ShapeItem> {
     v
 }
 
-pub const FAULT_KINDS: [FaultKind; 14] = [
+pub const FAULT_KINDS: [FaultKind; 16] = [
     FaultKind::RpcError,
     FaultKind::Truncated,
     FaultKind::WrongRoot,
@@ -122,6 +126,8 @@ pub const FAULT_KINDS: [FaultKind; 14] = [
     FaultKind::NoAck,
     FaultKind::LoadEmptyResults,
     FaultKind::LoadWarningNoOk,
+    FaultKind::ErrorThenWarning,
+    FaultKind::WarningThenError,
 ];
 
 #[derive(Debug, Clone, PartialEq, Eq, Serialize, Deserialize)]
@@ -264,6 +270,18 @@ impl FakeJunos {
             Some(FaultKind::RpcError) => {
                 record.positive_reply = false;
                 out.push(rpc_error(&id, "injected fault"));
+            }
+            Some(k @ (FaultKind::ErrorThenWarning | FaultKind::WarningThenError)) => {
+                record.positive_reply = false;
+                let e = |sev: &str| {
+                    format!("<rpc-error>\n<error-type>protocol</error-type>\n<error-tag>operation-failed</error-tag>\n<error-severity>{sev}</error-severity>\n<error-message>injected {sev}</error-message>\n</rpc-error>\n")
+                };
+                let body = if k == FaultKind::ErrorThenWarning {
+                    format!("{}{}", e("error"), e("warning"))
+                } else {
+                    format!("{}{}", e("warning"), e("error"))
+                };
+                out.push(reply_wrap(&id, &body));
             }
             Some(FaultKind::Truncated) => {
                 record.positive_reply = false;
